@@ -2099,6 +2099,8 @@ def _b_getattr(interp, args, kwargs, node):
         raise PyRaise(ExcVal("AttributeError", (name,), origin=f"getattr@{node.lineno}"))
     if obj is None and len(args) > 2 and not name.startswith("__"):
         return args[2]
+    if len(args) > 2 and type(obj) in (dict, list, tuple, str, set, frozenset) and not hasattr(obj, name):
+        return args[2]  # concrete built-in container without that attribute (CPython's own answer): the default
     raise Unsupported("getattr on non-record", node)
 
 
